@@ -20,12 +20,12 @@ theorem serMembers_eq (ops : FloatOps) (o : Opts) (d : Nat) (ms : List (Bytes ×
   | nil => rfl
   | cons m ms ih => obtain ⟨k, v⟩ := m; simp [serMembers, ih]
 
-theorem goodMembers_iff (ops : FloatOps) (ms : List (Bytes × Json)) : Json.GoodMembers ops ms ↔ ∀ kv ∈ ms, kv.2.Good ops := by
+theorem goodMembers_iff (ms : List (Bytes × Json)) : Json.GoodMembers ms ↔ ∀ kv ∈ ms, kv.2.Good := by
   induction ms with
   | nil => simp [Json.GoodMembers]
   | cons m ms ih => obtain ⟨k, v⟩ := m; simp [Json.GoodMembers, ih]
 
-theorem goodList_iff (ops : FloatOps) (xs : List Json) : Json.GoodList ops xs ↔ ∀ x ∈ xs, x.Good ops := by
+theorem goodList_iff (xs : List Json) : Json.GoodList xs ↔ ∀ x ∈ xs, x.Good := by
   induction xs with
   | nil => simp [Json.GoodList]
   | cons x xs ih => simp [Json.GoodList, ih]
@@ -41,6 +41,16 @@ theorem withinList_iff (lim : Limits) (s d : Nat) (xs : List Json) :
   induction xs with
   | nil => simp [Json.withinList]
   | cons x xs ih => simp [Json.withinList, ih]
+
+theorem utf8Members_iff (ms : List (Bytes × Json)) : Json.utf8Members ms ↔ ∀ kv ∈ ms, ValidUtf8 kv.1 ∧ kv.2.utf8 := by
+  induction ms with
+  | nil => simp [Json.utf8Members]
+  | cons m ms ih => obtain ⟨k, v⟩ := m; simp [Json.utf8Members, ih, and_assoc]
+
+theorem utf8List_iff (xs : List Json) : Json.utf8List xs ↔ ∀ x ∈ xs, x.utf8 := by
+  induction xs with
+  | nil => simp [Json.utf8List]
+  | cons x xs ih => simp [Json.utf8List, ih]
 
 theorem eqvMembers_iff (ms ns : List (Bytes × Json)) :
     eqvMembers ms ns = true ↔ ∀ kv ∈ ms, ∃ w, lookupKey kv.1 ns = some w ∧ eqv kv.2 w = true := by
@@ -103,6 +113,14 @@ theorem lookupKey_map_mem (ms : List (Bytes × Json)) (f : Json → Json) (k : B
       rw [if_neg this]
       exact ih hn.2 hm
 
+/-- a finite double equals itself for `operator==` -/
+theorem dblEq_self_of_finite (d : UInt64) (h : isFiniteBits d = true) : dblEq d d = true := by
+  have hn : isNaNBits d = false := by
+    simp only [isFiniteBits, decide_eq_true_eq] at h
+    simp only [isNaNBits, decide_eq_false_iff_not, not_and]
+    intro h'; exact absurd h' h
+  simp [dblEq, hn]
+
 theorem joinMembers_sortKeys (o : Opts) (b : Bool) (d : Nat) (items : List (Bytes × Bytes)) :
     joinMembers { o with sortKeys := b } d items = joinMembers o d items := by
   induction items with
@@ -115,9 +133,10 @@ variable (ops : FloatOps) (o : Opts)
 /-- what the induction carries for every value -/
 def SortP (v : Json) : Prop :=
   (∀ d, serialize ops { o with sortKeys := true } d v = serialize ops { o with sortKeys := false } d (sortDeep v)) ∧
-  (v.Good ops → (sortDeep v).Good ops) ∧
+  (v.Good → (sortDeep v).Good) ∧
   (∀ lim s d, v.within lim s d → (sortDeep v).within lim s d) ∧
-  (v.Good ops → eqv v (sortDeep v) = true)
+  (v.Good → eqv v (sortDeep v) = true) ∧
+  (v.utf8 → (sortDeep v).utf8)
 
 theorem serElems_sorted (xs : List Json) (h : ∀ x ∈ xs, SortP ops o x) (d : Nat) :
     serElems ops { o with sortKeys := true } d xs = serElems ops { o with sortKeys := false } d (sortDeepList xs) := by
@@ -131,7 +150,7 @@ theorem serElems_sorted (xs : List Json) (h : ∀ x ∈ xs, SortP ops o x) (d : 
     rfl
 
 theorem sortP_arr (xs : List Json) (h : ∀ x ∈ xs, SortP ops o x) : SortP ops o (.arr xs) := by
-  refine ⟨?_, ?_, ?_, ?_⟩
+  refine ⟨?_, ?_, ?_, ?_, ?_⟩
   · intro d
     have he : (sortDeepList xs).isEmpty = xs.isEmpty := by rw [sortDeepList_eq]; simp
     simp only [sortDeep, serialize, serElems_sorted ops o xs h d, he]
@@ -150,7 +169,12 @@ theorem sortP_arr (xs : List Json) (h : ∀ x ∈ xs, SortP ops o x) : SortP ops
   · intro hg
     simp only [Json.Good, goodList_iff] at hg
     simp only [sortDeep, eqv, sortDeepList_eq]
-    exact eqvList_map xs sortDeep (fun x hx => (h x hx).2.2.2 (hg x hx))
+    exact eqvList_map xs sortDeep (fun x hx => (h x hx).2.2.2.1 (hg x hx))
+  · intro hu
+    simp only [Json.utf8, sortDeep, utf8List_iff, sortDeepList_eq] at hu ⊢
+    intro y hy
+    obtain ⟨x, hx, rfl⟩ := List.mem_map.mp hy
+    exact (h x hx).2.2.2.2 (hu x hx)
 
 theorem sortP_obj (ms : List (Bytes × Json)) (h : ∀ kv ∈ ms, SortP ops o kv.2) : SortP ops o (.obj ms) := by
   have hperm : (sortMs (sortDeepMembers ms)).Perm (sortDeepMembers ms) := List.mergeSort_perm _ _
@@ -158,7 +182,7 @@ theorem sortP_obj (ms : List (Bytes × Json)) (h : ∀ kv ∈ ms, SortP ops o kv
     rw [sortDeepMembers_eq]; simp [List.map_map, Function.comp_def]
   have hlen : (sortMs (sortDeepMembers ms)).length = ms.length := by
     rw [hperm.length_eq, sortDeepMembers_eq]; simp
-  refine ⟨?_, ?_, ?_, ?_⟩
+  refine ⟨?_, ?_, ?_, ?_, ?_⟩
   · intro d
     have he : (sortMs (sortDeepMembers ms)).isEmpty = ms.isEmpty := by
       cases ms with
@@ -206,28 +230,40 @@ theorem sortP_obj (ms : List (Bytes × Json)) (h : ∀ kv ∈ ms, SortP ops o kv
     exact ⟨(hw.2.2 kv0 h0).1, (h kv0 h0).2.2.1 lim s (d + 1) (hw.2.2 kv0 h0).2⟩
   · intro hg
     simp only [Json.Good] at hg
-    have hg2 := (goodMembers_iff ops ms).mp hg.2
+    have hg2 := (goodMembers_iff ms).mp hg.2
     simp only [sortDeep, eqv, Bool.and_eq_true, beq_iff_eq]
     refine ⟨hlen.symm, ?_⟩
     rw [eqvMembers_iff]
     intro kv hkv
     have hnd : ((sortMs (sortDeepMembers ms)).map Prod.fst).Nodup := by
       rw [(hperm.map Prod.fst).nodup_iff, hkeys]; exact hg.1
-    refine ⟨sortDeep kv.2, ?_, (h kv hkv).2.2.2 (hg2 kv hkv)⟩
+    refine ⟨sortDeep kv.2, ?_, (h kv hkv).2.2.2.1 (hg2 kv hkv)⟩
     rw [lookupKey_perm hperm kv.1 hnd, sortDeepMembers_eq, lookupKey_map_mem ms sortDeep kv.1 kv.2 hg.1 hkv]
+  · intro hu
+    simp only [Json.utf8, sortDeep] at hu ⊢
+    rw [utf8Members_iff] at hu ⊢
+    intro kv hkv
+    have hkv' := (hperm.mem_iff).mp hkv
+    rw [sortDeepMembers_eq] at hkv'
+    obtain ⟨kv0, h0, rfl⟩ := List.mem_map.mp hkv'
+    exact ⟨(hu kv0 h0).1, (h kv0 h0).2.2.2.2 (hu kv0 h0).2⟩
 
 theorem sortP_scalar (v : Json) (hs : sortDeep v = v) (hser : ∀ d, serialize ops { o with sortKeys := true } d v
-    = serialize ops { o with sortKeys := false } d v) (he : eqv v v = true) : SortP ops o v := by
-  refine ⟨fun d => by rw [hs, hser], fun hg => by rw [hs]; exact hg, fun lim s d hw => by rw [hs]; exact hw, fun _ => by rw [hs]; exact he⟩
+    = serialize ops { o with sortKeys := false } d v) (he : v.Good → eqv v v = true) : SortP ops o v := by
+  refine ⟨fun d => by rw [hs, hser], fun hg => by rw [hs]; exact hg, fun lim s d hw => by rw [hs]; exact hw,
+    fun hg => by rw [hs]; exact he hg, fun hu => by rw [hs]; exact hu⟩
 
 theorem sortP_all (v : Json) : SortP ops o v :=
   Json.rec (motive_1 := SortP ops o) (motive_2 := fun xs => ∀ x ∈ xs, SortP ops o x)
     (motive_3 := fun ms => ∀ kv ∈ ms, SortP ops o kv.2) (motive_4 := fun kv => SortP ops o kv.2)
-    (sortP_scalar ops o _ rfl (fun _ => rfl) rfl)
-    (fun b => sortP_scalar ops o _ rfl (fun _ => rfl) (by simp [eqv]))
-    (fun i => sortP_scalar ops o _ rfl (fun _ => rfl) (by simp [eqv]))
-    (fun d => sortP_scalar ops o _ rfl (fun _ => rfl) (by simp [eqv]))
-    (fun s => sortP_scalar ops o _ rfl (fun _ => rfl) (by simp [eqv]))
+    (sortP_scalar ops o _ rfl (fun _ => rfl) (fun _ => rfl))
+    (fun b => sortP_scalar ops o _ rfl (fun _ => rfl) (fun _ => by simp [eqv]))
+    (fun i => sortP_scalar ops o _ rfl (fun _ => rfl) (fun _ => by simp [eqv]))
+    (fun d => sortP_scalar ops o _ rfl (fun _ => rfl) (fun hg => by
+      simp only [Json.Good] at hg
+      simp only [eqv]
+      exact dblEq_self_of_finite d hg))
+    (fun s => sortP_scalar ops o _ rfl (fun _ => rfl) (fun _ => by simp [eqv]))
     (fun xs ih => sortP_arr ops o xs ih) (fun ms ih => sortP_obj ops o ms ih)
     (fun _ h => by cases h)
     (fun x xs ihx ihxs y hy => by
@@ -246,12 +282,12 @@ theorem sortP_all (v : Json) : SortP ops o v :=
 end
 
 /-- **J2** (sorted keys): the text parses back to `sortDeep v`, which is `v` up to member order (`Json::operator==`) -/
-theorem parse_serialize_sorted (ops : FloatOps) (lim : Limits) (o : Opts) (wi : Ws) (hind : wi.render = o.indent)
-    (v : Json) (hg : v.Good ops) (hw : v.within lim 0 0) :
+theorem parse_serialize_sorted (ops : FloatOps) (hl : LibcOk ops) (lim : Limits) (o : Opts) (wi : Ws) (hind : wi.render = o.indent)
+    (v : Json) (hg : v.Good) (hw : v.within lim 0 0) :
     parse ops lim (serialize ops { o with sortKeys := true } 0 v) = .ok (sortDeep v) ∧ eqv v (sortDeep v) = true := by
-  obtain ⟨h1, h2, h3, h4⟩ := sortP_all ops o v
+  obtain ⟨h1, h2, h3, h4, -⟩ := sortP_all ops o v
   refine ⟨?_, h4 hg⟩
   rw [h1 0]
-  exact parse_serialize ops lim { o with sortKeys := false } wi hind rfl (sortDeep v) (h2 hg) (h3 lim 0 0 hw)
+  exact parse_serialize ops hl lim { o with sortKeys := false } wi hind rfl (sortDeep v) (h2 hg) (h3 lim 0 0 hw)
 
 end Iora.Json.Spec
